@@ -888,6 +888,8 @@ func c04LookupTable(w *World, r *Report, lookup *types.Func) {
 		if len(r0) != len(r1) {
 			why = "results not decided"
 		}
+		// exits of one kind may be several (a test split in two): their conditions are joined
+		hit, chk := pcZ, pcZ
 		for i := range r0 {
 			if why != "" {
 				break
@@ -901,9 +903,7 @@ func c04LookupTable(w *World, r *Report, lookup *types.Func) {
 					break
 				}
 				nHit++
-				if msg := pcCompare(r0[i].cond, classify, func(env map[string]bool) bool { return env["found"] && (!env["custom"] || env["allowed"]) }); msg != "" {
-					why = "the table's entry is not returned exactly when it exists and is visible: " + msg
-				}
+				hit = pcOrF(hit, r0[i].cond)
 			case isConst:
 				if !isNilConst(v0) {
 					why = "an exit answers not-found with a symbol"
@@ -921,9 +921,14 @@ func c04LookupTable(w *World, r *Report, lookup *types.Func) {
 					break
 				}
 				nChk++
-				if msg := pcCompare(r0[i].cond, classify, func(env map[string]bool) bool { return !env["found"] && !env["nochecker"] }); msg != "" {
-					why = "the checker is not asked exactly for names that are not in the table: " + msg
-				}
+				chk = pcOrF(chk, r0[i].cond)
+			}
+		}
+		if why == "" {
+			if msg := pcCompare(hit, classify, func(env map[string]bool) bool { return env["found"] && (!env["custom"] || env["allowed"]) }); msg != "" {
+				why = "the table's entry is not returned exactly when it exists and is visible: " + msg
+			} else if msg := pcCompare(chk, classify, func(env map[string]bool) bool { return !env["found"] && !env["nochecker"] }); msg != "" {
+				why = "the checker is not asked exactly for names that are not in the table: " + msg
 			}
 		}
 		if why == "" && (nHit == 0 || nChk == 0) {
